@@ -76,95 +76,77 @@ Definition pos_is_identc (c : ascii) : bool :=
   orb (pos_is_alnum c) (orb (Ascii.eqb c "_"%char) (Ascii.eqb c "-"%char)).
 
 (* ------------------------------------------------------------------ *)
-(* the lexer; a state is (unread input, Pos()) *)
+(* the lexer; a scanner state is (unread input, Pos()) *)
+
+Definition lx := (string * spos)%type.
 
 Inductive lexres :=
-| LTok (start : spos) (is_end : bool) (rest : string) (p : spos)
+| LTok (start : spos) (is_end : bool) (st : lx)
 | LErr (at_ : spos).
 
+(* scan.Next() *)
+Definition pos_eat1 (st : lx) : lx :=
+  match fst st with
+  | String c r => (r, sp_step (snd st) c)
+  | EmptyString => st
+  end.
+
+(* scan.Peek() == c *)
+Definition pos_peek_is (c : ascii) (st : lx) : bool :=
+  match fst st with String c' _ => Ascii.eqb c' c | EmptyString => false end.
+
+(* f(scan.Peek()), false at EOF *)
+Definition pos_peek_in (f : ascii -> bool) (st : lx) : bool :=
+  match fst st with String c' _ => f c' | EmptyString => false end.
+
+(* if r == c { r = lex.eat() } *)
+Definition pos_eat_if (c : ascii) (st : lx) : lx :=
+  if pos_peek_is c st then pos_eat1 st else st.
+
 (* for { r = eat(); if !f(r) break } *)
-Fixpoint pos_eat_while (f : ascii -> bool) (s : string) (p : spos) : string * spos :=
+Fixpoint pos_eat_while_s (f : ascii -> bool) (s : string) (p : spos) : lx :=
   match s with
-  | String c s' => if f c then pos_eat_while f s' (sp_step p c) else (s, p)
+  | String c s' => if f c then pos_eat_while_s f s' (sp_step p c) else (s, p)
   | EmptyString => (s, p)
   end.
+Definition pos_eat_while (f : ascii -> bool) (st : lx) : lx := pos_eat_while_s f (fst st) (snd st).
 
 (* tail of lexNum / lexHexInt: if isAlnum(r) { unexpected } else token *)
-Definition pos_num_end (s : string) (p start : spos) : lexres :=
-  match s with
-  | String c _ => if pos_is_alnum c then LErr p else LTok start false s p
-  | EmptyString => LTok start false s p
-  end.
+Definition pos_num_end (st : lx) (start : spos) : lexres :=
+  if pos_peek_in pos_is_alnum st then LErr (snd st) else LTok start false st.
 
 (* exponent part *)
-Definition pos_num_exp (s : string) (p start : spos) : lexres :=
-  match s with
-  | String c r =>
-      if orb (Ascii.eqb c "e"%char) (Ascii.eqb c "E"%char) then
-        let p1 := sp_step p c in
-        let '(s1, p1) :=
-          match r with
-          | String "-"%char r' => (r', sp_step p1 "-"%char)
-          | _ => (r, p1)
-          end in
-        match s1 with
-        | String "0"%char r0 => pos_num_end r0 (sp_step p1 "0"%char) start
-        | String d _ =>
-            if pos_is_num d then
-              let '(s2, p2) := pos_eat_while pos_is_num s1 p1 in pos_num_end s2 p2 start
-            else LErr p1
-        | EmptyString => LErr p1
-        end
-      else pos_num_end s p start
-  | EmptyString => pos_num_end s p start
-  end.
+Definition pos_num_exp (st : lx) (start : spos) : lexres :=
+  if orb (pos_peek_is "e"%char st) (pos_peek_is "E"%char st) then
+    let st1 := pos_eat_if "-"%char (pos_eat1 st) in
+    if pos_peek_is "0"%char st1 then pos_num_end (pos_eat1 st1) start
+    else if pos_peek_in pos_is_num st1 then pos_num_end (pos_eat_while pos_is_num st1) start
+    else LErr (snd st1)
+  else pos_num_end st start.
 
 (* fraction part *)
-Definition pos_num_frac (s : string) (p start : spos) : lexres :=
-  match s with
-  | String "."%char r =>
-      let p1 := sp_step p "."%char in
-      match r with
-      | String d _ =>
-          if pos_is_num d then
-            let '(s2, p2) := pos_eat_while pos_is_num r p1 in pos_num_exp s2 p2 start
-          else LErr p1
-      | EmptyString => LErr p1
-      end
-  | _ => pos_num_exp s p start
-  end.
+Definition pos_num_frac (st : lx) (start : spos) : lexres :=
+  if pos_peek_is "."%char st then
+    let st1 := pos_eat1 st in
+    if pos_peek_in pos_is_num st1 then pos_num_exp (pos_eat_while pos_is_num st1) start
+    else LErr (snd st1)
+  else pos_num_exp st start.
 
 (* lexHexInt, entered after "0x" has been consumed *)
-Definition pos_lex_hex (s : string) (p start : spos) : lexres :=
-  match s with
-  | String "0"%char r => pos_num_end r (sp_step p "0"%char) start
-  | String c _ =>
-      if pos_is_hex c then
-        let '(s1, p1) := pos_eat_while pos_is_hex s p in pos_num_end s1 p1 start
-      else LErr p
-  | EmptyString => LErr p
-  end.
+Definition pos_lex_hex (st : lx) (start : spos) : lexres :=
+  if pos_peek_is "0"%char st then pos_num_end (pos_eat1 st) start
+  else if pos_peek_in pos_is_hex st then pos_num_end (pos_eat_while pos_is_hex st) start
+  else LErr (snd st).
 
 (* lexNum; precondition: the look-ahead is a digit or '-' *)
-Definition pos_lex_num (s : string) (p start : spos) : lexres :=
-  let '(s, p) :=
-    match s with
-    | String "-"%char r => (r, sp_step p "-"%char)
-    | _ => (s, p)
-    end in
-  match s with
-  | String "0"%char r0 =>
-      let p0 := sp_step p "0"%char in
-      match r0 with
-      | String "x"%char rx => pos_lex_hex rx (sp_step p0 "x"%char) start
-      | _ => pos_num_frac r0 p0 start
-      end
-  | String c _ =>
-      if pos_is_num c then
-        let '(s1, p1) := pos_eat_while pos_is_num s p in pos_num_frac s1 p1 start
-      else LErr p
-  | EmptyString => LErr p
-  end.
+Definition pos_lex_num (st : lx) (start : spos) : lexres :=
+  let st0 := pos_eat_if "-"%char st in
+  if pos_peek_is "0"%char st0 then
+    let st1 := pos_eat1 st0 in
+    if pos_peek_is "x"%char st1 then pos_lex_hex (pos_eat1 st1) start
+    else pos_num_frac st1 start
+  else if pos_peek_in pos_is_num st0 then pos_num_frac (pos_eat_while pos_is_num st0) start
+  else LErr (snd st0).
 
 (* lexString; [s] is the input after the opening quote *)
 Fixpoint pos_lex_str (s : string) (p start : spos) : lexres :=
@@ -176,52 +158,44 @@ Fixpoint pos_lex_str (s : string) (p start : spos) : lexres :=
         | String c2 r' =>
             if Ascii.eqb c2 "'"%char
             then pos_lex_str r' (sp_step (sp_step p c) c2) start      (* '' escape *)
-            else LTok start false r (sp_step p c)
-        | EmptyString => LTok start false r (sp_step p c)
+            else LTok start false (r, sp_step p c)
+        | EmptyString => LTok start false (r, sp_step p c)
         end
       else pos_lex_str r (sp_step p c) start
   end.
 
 (* one- or two-character operator: the second character is optional
    (lexLess, lexGreater, lexBang) *)
-Definition pos_lex_opt (second : ascii) (r : string) (p1 start : spos) : lexres :=
-  match r with
-  | String c r' =>
-      if Ascii.eqb c second then LTok start false r' (sp_step p1 c) else LTok start false r p1
-  | EmptyString => LTok start false r p1
-  end.
+Definition pos_lex_opt (second : ascii) (st1 : lx) (start : spos) : lexres :=
+  LTok start false (pos_eat_if second st1).
 
 (* the second character is required (lexEq, lexAnd, lexOr, lexEnd) *)
-Definition pos_lex_req (second : ascii) (is_end : bool) (r : string) (p1 start : spos) : lexres :=
-  match r with
-  | String c r' =>
-      if Ascii.eqb c second then LTok start is_end r' (sp_step p1 c) else LErr p1
-  | EmptyString => LErr p1
-  end.
+Definition pos_lex_req (second : ascii) (is_end : bool) (st1 : lx) (start : spos) : lexres :=
+  if pos_peek_is second st1 then LTok start is_end (pos_eat1 st1) else LErr (snd st1).
 
 Definition pos_single (c : ascii) : bool :=
   existsb (Ascii.eqb c) ["("; ")"; "["; "]"; "."; "*"; ","]%char.
 
 (* ExprLexer.Next *)
-Definition pos_lex_next (s : string) (p : spos) : lexres :=
-  let '(s1, p1) := pos_eat_while pos_is_white s p in       (* skipWhite; lex.start = Pos() *)
-  match s1 with
-  | EmptyString => LErr p1                                  (* unexpectedEOF *)
-  | String c r =>
-      let p2 := sp_step p1 c in
-      if orb (pos_is_alpha c) (Ascii.eqb c "_"%char) then
-        let '(s2, p3) := pos_eat_while pos_is_identc r p2 in LTok p1 false s2 p3
-      else if orb (pos_is_num c) (Ascii.eqb c "-"%char) then pos_lex_num s1 p1 p1
-      else if Ascii.eqb c "'"%char then pos_lex_str r p2 p1
-      else if Ascii.eqb c "}"%char then pos_lex_req "}"%char true r p2 p1
-      else if Ascii.eqb c "!"%char then pos_lex_opt "="%char r p2 p1
-      else if Ascii.eqb c "<"%char then pos_lex_opt "="%char r p2 p1
-      else if Ascii.eqb c ">"%char then pos_lex_opt "="%char r p2 p1
-      else if Ascii.eqb c "="%char then pos_lex_req "="%char false r p2 p1
-      else if Ascii.eqb c "&"%char then pos_lex_req "&"%char false r p2 p1
-      else if Ascii.eqb c "|"%char then pos_lex_req "|"%char false r p2 p1
-      else if pos_single c then LTok p1 false r p2
-      else LErr p1
+Definition pos_lex_next (st : lx) : lexres :=
+  let st1 := pos_eat_while pos_is_white st in       (* skipWhite; lex.start = Pos() *)
+  let start := snd st1 in
+  match fst st1 with
+  | EmptyString => LErr start                        (* unexpectedEOF *)
+  | String c _ =>
+      let st2 := pos_eat1 st1 in
+      if orb (pos_is_alpha c) (Ascii.eqb c "_"%char) then LTok start false (pos_eat_while pos_is_identc st2)
+      else if orb (pos_is_num c) (Ascii.eqb c "-"%char) then pos_lex_num st1 start
+      else if Ascii.eqb c "'"%char then pos_lex_str (fst st2) (snd st2) start
+      else if Ascii.eqb c "}"%char then pos_lex_req "}"%char true st2 start
+      else if Ascii.eqb c "!"%char then pos_lex_opt "="%char st2 start
+      else if Ascii.eqb c "<"%char then pos_lex_opt "="%char st2 start
+      else if Ascii.eqb c ">"%char then pos_lex_opt "="%char st2 start
+      else if Ascii.eqb c "="%char then pos_lex_req "="%char false st2 start
+      else if Ascii.eqb c "&"%char then pos_lex_req "&"%char false st2 start
+      else if Ascii.eqb c "|"%char then pos_lex_req "|"%char false st2 start
+      else if pos_single c then LTok start false st2
+      else LErr start
   end.
 
 (* LexExpression: all tokens up to and including the end marker, or the
@@ -232,16 +206,16 @@ Inductive lexall :=
 | LAErr (toks : list (spos * bool)) (at_ : spos)
 | LAFuel.
 
-Fixpoint pos_lex_loop (fuel : nat) (s : string) (p : spos) (acc : list (spos * bool)) : lexall :=
+Fixpoint pos_lex_loop (fuel : nat) (st : lx) (acc : list (spos * bool)) : lexall :=
   match fuel with
   | O => LAFuel
   | S f =>
-      match pos_lex_next s p with
+      match pos_lex_next st with
       | LErr e => LAErr (rev acc) e
-      | LTok st true _ p' => LAOk (rev ((st, true) :: acc)) (sp_off p')
-      | LTok st false s' p' => pos_lex_loop f s' p' ((st, false) :: acc)
+      | LTok t true st' => LAOk (rev ((t, true) :: acc)) (sp_off (snd st'))
+      | LTok t false st' => pos_lex_loop f st' ((t, false) :: acc)
       end
   end.
 
 Definition pos_lex_all (src : string) : lexall :=
-  pos_lex_loop (S (String.length src)) src sp_start [].
+  pos_lex_loop (S (String.length src)) (src, sp_start) [].
